@@ -413,6 +413,7 @@ var fileSeekOptions = []string{"set", "cur", "end"}
 
 func fileSeek(L *LState) int {
 	file := checkFile(L)
+	errorIfFileIsClosed(L, file)
 	if file.Type() != lFileFile {
 		L.Push(LNil)
 		L.Push(LString("can not seek a process."))
@@ -468,6 +469,7 @@ func fileLinesIter(L *LState) int {
 	} else {
 		file = L.Get(UpvalueIndex(2)).(*LUserData).Value.(*lFile)
 	}
+	errorIfFileIsClosed(L, file)
 	buf, _, err := file.reader.ReadLine()
 	if err != nil {
 		if err == io.EOF {
@@ -486,6 +488,7 @@ func fileLines(L *LState) int {
 	if n := fileIsReadable(L, file); n != 0 {
 		return 0
 	}
+	errorIfFileIsClosed(L, file)
 	L.Push(L.NewClosure(fileLinesIter, L.Get(UpvalueIndex(1)), ud))
 	return 1
 }
@@ -503,6 +506,7 @@ func fileSetVBuf(L *LState) int {
 	if n := fileIsWritable(L, file); n != 0 {
 		return n
 	}
+	errorIfFileIsClosed(L, file)
 	switch filebufOptions[L.CheckOption(2, filebufOptions)] {
 	case "no":
 		switch file.Type() {
@@ -581,6 +585,7 @@ func ioLinesIter(L *LState) int {
 		file = L.Get(UpvalueIndex(2)).(*LUserData).Value.(*lFile)
 		toclose = true
 	}
+	errorIfFileIsClosed(L, file)
 	buf, _, err := file.reader.ReadLine()
 	if err != nil {
 		if err == io.EOF {
